@@ -146,6 +146,23 @@ Theorem C28_step_str : forall e s s' u s1 w sr br off, Completed e s s' u s1 w (
              if word_eqb (mget (s_mem s) ea) (rget (s_regs s) sr) then o else obs_update o ea OBS_MODIFIED.
 Proof. exact step_obs_str. Qed.
 Print Assumptions C28_step_str.
+Theorem C28_step_ldi : forall e s s' u s1 w dr off, Completed e s s' u s1 w (SLDI dr off) ->
+  (IO_START <=? s_pc s) = false ->
+  let pa := wrap16 (wrap16 (s_pc s + 1) + off) in
+  (IO_START <=? pa) = false ->
+  s_obs s' = obs_update (obs_update [(s_pc s, OBS_READ)] pa OBS_READ) (w_data (mget (s_mem s) pa)) OBS_READ.
+Proof. exact step_obs_ldi. Qed.
+Print Assumptions C28_step_ldi.
+Theorem C28_step_sti : forall e s s' u s1 w sr off, Completed e s s' u s1 w (SSTI sr off) ->
+  (IO_START <=? s_pc s) = false ->
+  let pa := wrap16 (wrap16 (s_pc s + 1) + off) in
+  (IO_START <=? pa) = false ->
+  let ea := w_data (mget (s_mem s) pa) in
+  (IO_START <=? ea) = false ->
+  s_obs s' = let o := obs_update (obs_update [(s_pc s, OBS_READ)] pa OBS_READ) ea OBS_WRITTEN in
+             if word_eqb (mget (s_mem s) ea) (rget (s_regs s) sr) then o else obs_update o ea OBS_MODIFIED.
+Proof. exact step_obs_sti. Qed.
+Print Assumptions C28_step_sti.
 (* non-vacuity of the step theorems: a user-mode machine that executes `ST R0, #1` at x3000 with R0 = 5
    over a zero word takes no interrupt, completes the step, and ends with exactly READ at x3000 and
    WRITTEN+MODIFIED at x3002 *)
